@@ -1,5 +1,5 @@
-From GoMC Require Import Model.C20_syntax Gen.Queue Model.C20.
+From GoMC Require Import Model.C20_syntax Gen.Queue Model.C20 Model.C20_keepalive.
 From Coq Require Import NArith ZArith.
 Require Import ExtrOcamlBasic.
 Extraction "c20_model.ml" exec init ll_progs ch_progs can_step fifo_ok flags_ok results_ok rest_ok gots finished
-  pl_progs prun papply pool_step pool_init disciplined packet_seqs Z.of_N N.of_nat.
+  pl_progs prun papply pool_step pool_init disciplined packet_seqs krun kstep kinit Z.of_N N.of_nat.
